@@ -236,3 +236,19 @@ def assign_opaques(draw, m: R.Model, sentences):
             visit(c)
     for s in sentences:
         visit(s)
+
+
+_BY_BASE = {}
+for _n in sorted(R.LOGICS):
+    _BY_BASE.setdefault(R.base_of(_n), []).append(_n)
+_BASES = sorted(_BY_BASE)
+
+
+@st.composite
+def logic_name(draw, pred=None):
+    """Base logic first (15 of them, uniformly), then one of its frame variants: the one-off logics
+    (MH, NH, P3, GO ...) get as many cases as the large families."""
+    bases = [b for b in _BASES if pred is None or any(pred(n) for n in _BY_BASE[b])]
+    b = bases[draw(st.integers(0, len(bases) - 1))]
+    names = [n for n in _BY_BASE[b] if pred is None or pred(n)]
+    return names[draw(st.integers(0, len(names) - 1))]
